@@ -95,6 +95,102 @@ MULTI = [
     "        let mut span = HashMap::with_capacity(4);\n\n        let _ = props.for_each(|k, v| {\n            let value = ThreadLocalValue::from_value(v);\n            span.insert(k.to_shared(), value);")]),
  ("B.slot_init_let", ["C20"], "core/src/runtime.rs", [
    ("            self.0\n                .set({", "            let cell = &self.0;\n            cell\n                .set({")]),
+ # ---- round 4: equivalent spellings of the constructs the round-4 rules read --------------------------------------------
+ ("B.from_iter_for_each", ["C17"], "src/level.rs", [
+   ("""            for (path, min_level) in iter {
+                map.min_level(path, min_level);
+            }
+""", """            iter.into_iter().for_each(|(path, min_level)| {
+                map.min_level(path, min_level);
+            });
+""")]),
+ ("B.from_iter_named_iterator", ["C17"], "src/level.rs", [
+   ("""            for (path, min_level) in iter {
+                map.min_level(path, min_level);
+            }
+""", """            let mut pairs = iter.into_iter();
+            while let Some((path, min_level)) = pairs.next() {
+                map.min_level(path, min_level);
+            }
+""")]),
+ ("B.render_write_iter", ["C16"], "core/src/template.rs", [
+   ("""        for part in self.tpl.0.parts() {
+            part.write(&mut writer, &self.props)?;
+        }
+
+        Ok(())""", """        let parts = self.tpl.0.parts();
+        let w = &mut writer;
+        for part in parts.iter() {
+            if let Err(e) = part.write(&mut *w, &self.props) {
+                return Err(e);
+            }
+        }
+
+        Ok(())""")]),
+ ("B.new_str_guard_clause", ["C15", "C17"], "core/src/path.rs", [
+   ("""        if is_valid_path(path.get()) {
+            Ok(Path(path))
+        } else {""", """        let text_ok = is_valid_path(path.get());
+        if text_ok == true {
+            Ok(Path(path))
+        } else {""")]),
+ ("B.id_buffer_is_err", ["C15", "C04"], "src/span.rs", [
+   ("""        write!(self, "{}", value).map_err(|_| ParseIdError {})?;""",
+    """        if write!(self, "{}", value).is_err() {
+            return Err(ParseIdError {});
+        }""")]),
+ ("B.leap_shortcut_strict_bound", ["C15"], "core/src/timestamp.rs", [
+   ("        if year as u64 <= 138 {", "        if 139 > year as u64 {")]),
+ ("B.sum_points_match", ["C13", "C14"], "emitter/otlp/src/data/metrics.rs", [
+   ("""            NumberDataPointValue::AsInt(AsInt(current)) => current
+                .checked_add(value)
+                .map(|value| NumberDataPointValue::AsInt(AsInt(value)))
+                .unwrap_or(NumberDataPointValue::AsDouble(AsDouble(f64::INFINITY))),""",
+    """            NumberDataPointValue::AsInt(AsInt(current)) => match current.checked_add(value) {
+                Some(total) => NumberDataPointValue::AsInt(AsInt(total)),
+                None => NumberDataPointValue::AsDouble(AsDouble(f64::INFINITY)),
+            },""")]),
+ ("B.file_record_break_carries_error", ["C13", "C10"], "emitter/file/src/lib.rs", [
+   ("""            let mut r = Ok(());
+
+            let _ = self.0.props().dedup().for_each(|k, v| {""", """            let flow = self.0.props().dedup().for_each(|k, v| {"""),
+   ("""                    Err(e) => {
+                        r = Err(e);
+                        ControlFlow::Break(())
+                    }
+                }
+            });
+
+            // A property that failed to stream leaves the record incomplete
+            r?;
+""", """                    Err(_) => ControlFlow::Break(()),
+                }
+            });
+
+            if flow.is_break() {
+                return sval::error();
+            }
+""")]),
+ ("B.capture_args_let", ["C19"], "macros/src/capture.rs", [
+   ("""        Ok(Args {
+            inspect: inspect.take_or_default(),
+        })""", """        let inspect = inspect.take_or_default();
+
+        Ok(Args { inspect })""")]),
+ ("B.visit_text_alias", ["C16"], "macros/src/template.rs", [
+   ("""        self.literal.push_str(text);
+
+        parts.push(quote!(emit::template::Part::text(#text)));""", """        let fragment = text;
+        self.literal.push_str(fragment);
+
+        parts.push(quote!(emit::template::Part::text(#fragment)));""")]),
+ ("B.runtime_flush_let", ["C20", "C01", "C07"], "core/src/runtime.rs", [
+   ("""    fn blocking_flush(&self, timeout: core::time::Duration) -> bool {
+        self.emitter.blocking_flush(timeout)
+    }""", """    fn blocking_flush(&self, timeout: core::time::Duration) -> bool {
+        let flushed = self.emitter.blocking_flush(timeout);
+        flushed
+    }""")]),
 ]
 
 RENAMES = [
